@@ -279,6 +279,22 @@ def run_sample(desc, M):
         # concrete twin / replay: statistical check of the law on the real generator
         eng = BayesianModelSampling(model)
         evs = [State(v, C.sname(d, v, s)) for v, s in ev]
+        if partial is not None:
+            # partial samples: the supplied column must come back row by row (by position), whatever the frame's index
+            big = 6
+            pv = desc["partial"]
+            pvals_big = [(card[pv] - 1 - r) % card[pv] for r in range(big)]
+            idx_big = list(range(big))[::-1] if desc.get("partial_index") else list(range(big))
+            if desc.get("partial_index"):
+                idx_big = [i * 3 + 1 for i in idx_big]
+            pframe = pd.DataFrame({pv: pvals_big}, index=idx_big)
+            df = eng.forward_sample(size=big, include_latents=True, show_progress=False, seed=11, partial_samples=pframe, n_jobs=1)
+            M.check(len(df) == big, "exactly the requested number of rows", detail=str(len(df)))
+            names_v = C.expected_state_names(d, pv)
+            got = list(df[pv])
+            M.check(all(any(g == n_ for n_ in names_v) for g in got) and [names_v.index(g) if g in names_v else None for g in got] == pvals_big,
+                    "partial samples are respected row by row (by position)", detail=f"{got} vs {[names_v[i] for i in pvals_big]}")
+            return
         n = 20000
         if sampler == "forward":
             df = eng.forward_sample(size=n, include_latents=True, show_progress=False, seed=11, partial_samples=None, n_jobs=1)
